@@ -89,6 +89,17 @@ def eigen_vanishes(case, obs, i):
     return bool(simple and av[i] <= 1e-7 * av.max())
 
 
+def plain_border_vertex(case, obs, v):
+    """v lies on the border and its feature edges are exactly its two border edges (no crease ends there)"""
+    he = set()
+    for f in case["F"]:
+        for k in range(3):
+            he.add((f[k], f[(k + 1) % 3]))
+    border = [e for e, (a, b) in enumerate(obs["edges"]) if v in (a, b) and not ((a, b) in he and (b, a) in he)]
+    feat = [e for e in obs["feat"] if v in obs["edges"][e]]
+    return len(border) == 2 and sorted(border) == sorted(feat)
+
+
 def classify_crash(case, obs):
     """the field computation raised: -> (key, message, extra) ; the known class is an INPUT class, not an exception text:
     face-based field, closed surface, no feature edge (eigen path), and the connection Laplacian that was assembled is
@@ -158,6 +169,11 @@ def check(case, obs, notes=None):
             fails.append(("unit/zero-constraint-guarded-branch",
                           "element %d (constrained) has modulus %.3g: in the even-order smooth_normals branch a contribution "
                           "that would cancel the accumulated constraint must be skipped, yet the constraint is 0" % (i, mod_i)))
+        elif cancels and plain_border_vertex(case, obs, i):
+            fails.append(("unit/zero-constraint-border-vertex",
+                          "border vertex %d (its two border edges are its only feature edges) has modulus %.3g: the connection flattens a "
+                          "border vertex to a multiple of 2 pi/order so that both border edges ask for the SAME representation vector, "
+                          "yet they cancel" % (i, mod_i)))
         elif cancels:
             fails.append(("unit/zero-constraint", "element %d (constrained) has modulus %.3g: the constraints of its feature "
                                                   "edges cancel (plain sum) and are left at 0" % (i, mod_i)))
